@@ -79,16 +79,19 @@ def dirty_raises(ctx, entry, protected=PROTECTED, max_paths=6000):
         nraise += 1
         r = _last_raise(p.events)
         exc = p.state.exc
+        if exc and exc[0] != 'raise':
+            # an exception of a call the model does not read, passed on by a bare `raise`: nothing of the repository's own refuses here
+            continue
         fn = exc[3] if exc and len(exc) > 3 else '?'
         cls = exc[1] if exc else '?'
         site = exc[2] if exc else '?'
         ws = _pwrites(p.events, protected)
         if not ws:
             key = (fn, cls, site)
-            reports.setdefault(key, {'entry': entry, 'fn': fn, 'exc': cls, 'site': site, 'guard': guard_of(p), 'writes': [], 'owner': exc[4] if exc and len(exc) > 4 else None, 'implicit': bool(exc and len(exc) > 5 and exc[5] == 'table-miss')})
+            reports.setdefault(key, {'entry': entry, 'fn': fn, 'exc': cls, 'site': site, 'guard': guard_of(p), 'writes': [], 'owner': exc[4] if exc and len(exc) > 4 else None, 'implicit': bool(exc and len(exc) > 5 and exc[5] in ('table-miss', 'lookup-miss'))})
             continue
         key = (fn, cls, site)
-        rep = reports.setdefault(key, {'entry': entry, 'fn': fn, 'exc': cls, 'site': site, 'guard': guard_of(p), 'writes': [], 'owner': exc[4] if exc and len(exc) > 4 else None, 'implicit': bool(exc and len(exc) > 5 and exc[5] == 'table-miss')})
+        rep = reports.setdefault(key, {'entry': entry, 'fn': fn, 'exc': cls, 'site': site, 'guard': guard_of(p), 'writes': [], 'owner': exc[4] if exc and len(exc) > 4 else None, 'implicit': bool(exc and len(exc) > 5 and exc[5] in ('table-miss', 'lookup-miss'))})
         for w in ws:
             if w not in rep['writes']:
                 rep['writes'].append(w)
